@@ -86,7 +86,18 @@ def gen_case(rng, tier, idx):
                 base = ""
             lines.append(base)
         extra = rng.choice([None, None, ["extra bad"], ["extra bad", "line 3"], []])
-        return {"kind": kind, "lines": lines, "extra": extra}
+        case = {"kind": kind, "lines": lines, "extra": extra}
+        if rng.random() < 0.25:
+            # the command parser over a datasource with several outputs (one per container / per item), evaluated by the
+            # engine: error messages among them yield no object, every other output reaches the parser
+            elems = []
+            for j in range(rng.randint(2, 5)):
+                if rng.random() < 0.4:
+                    elems.append([rng.choice(["pre ", ""]) + rc(rng, rng.choice(SINGLE)) + rng.choice([" post", ""])])
+                else:
+                    elems.append(["element %d line %d" % (j, i) for i in range(rng.randint(1, 3))])
+            case["elements"] = elems
+        return case
     if kind == "doc":
         v = gen_value(rng, 3)
         if not isinstance(v, (dict, list)) and rng.random() < 0.8:
@@ -163,10 +174,52 @@ def nontrivial(spec):
 
 
 # --------------------------------------------------------------------------
+def run_cmd_elements(spec, ctx):
+    import sys
+    import types
+    from insights.core import CommandParser, dr
+    from insights.core.plugins import datasource, parser
+    from insights.tests import context_wrap
+    from vpmon import gen_graph as G
+    uid = next(_UID)
+    modname = "vpmon_c14.m%d" % uid
+    sys.modules[modname] = types.ModuleType(modname)
+    created = []
+    try:
+        def src(broker):
+            return [context_wrap(list(e)) for e in spec["elements"]]
+        src.__name__ = src.__qualname__ = "src%d" % uid
+        src.__module__ = modname
+        ds = datasource(multi_output=True)(src)
+        created.append(ds)
+
+        class CPM(CommandParser):
+            def parse_content(self, content):
+                self.got = list(content)
+        CPM.__name__ = CPM.__qualname__ = "CPM%d" % uid
+        CPM.__module__ = modname
+        pc = parser(ds)(CPM)
+        created.append(pc)
+        br = dr.run(dr.get_dependency_graph(pc))
+        got = [list(x.got) for x in (br.get(pc) or [])]
+        exp = [list(e) for e in spec["elements"] if not (len(e) == 1 and any(p_ in e[0].lower() for p_ in SINGLE))]
+        ctx.count("multi_output_command_parsers")
+        ctx.count("command_outputs", len(spec["elements"]))
+        if got != exp:
+            ctx.violation("good-output-of-a-multi-output-command-did-not-reach-the-parser" if len(got) < len(exp) else "error-output-reached-the-parser",
+                          {"elements": spec["elements"], "parsed": got, "expected": exp})
+    finally:
+        for c_ in created:
+            G._unregister(c_)
+        sys.modules.pop(modname, None)
+
+
 def run_cmd(spec, ctx):
     from insights.core import CommandParser
     from insights.core.exceptions import ContentException
     from insights.tests import context_wrap
+    if spec.get("elements"):
+        run_cmd_elements(spec, ctx)
 
     class CP(CommandParser):
         def parse_content(self, content):
